@@ -16,7 +16,7 @@ def SeqStyler (st : Styler) : Prop := IsSeqs st.reset ∧ ∀ p, IsSeqs (st.seqs
 combination of colour / underlined / bold, the emitted prefix and reset are concatenations of
 complete SGR sequences (possibly empty). If a theme ever emits anything else this stops checking. -/
 theorem theme_seqs_complete : ∀ r ∈ Gen.themeTable, KlogV.isSeqsB r.2.2.2.2.1.toList = true ∧ KlogV.isSeqsB r.2.2.2.2.2.toList = true := by
-  decide
+  decide +kernel
 
 theorem isSeqsB_iff (s : List Char) : KlogV.isSeqsB s = true ↔ IsSeqs s := KlogV.isSeqsB_iff s
 
